@@ -23,6 +23,7 @@ import PyGqlModel.Spec.ValidDoc
 import PyGqlModel.Props.C06_all
 import PyGqlModel.Props.C05_merge
 import PyGqlModel.ExecArgs
+import PyGqlModel.ExecOfValidate
 import PyGqlModel.Props.C04_acyclic
 import PyGqlModel.Lemmas.C05Acyclic
 
@@ -33,68 +34,6 @@ namespace PyGql.Props.C05
 open PyGql
 open PyGql.Validate (Node)
 open PyGql.Validate.Spec (tnSel tnSels tnDef typedNodes View selNodes selsNodes defNodes nodes fragNames compositeBase)
-
-/-! ### translation of the validator's documents to the executor's -/
-
-/-- the `if` argument as `coerce_argument_values` sees it (dict comprehension: the LAST one wins) -/
-def condOf (args : List Validate.Arg) : Exec.Cond :=
-  match (args.filter (·.name == "if")).getLast? with
-  | some a =>
-    match a.value with
-    | .bool b => .lit b
-    | .var v => .var v
-    | _ => .bad
-  | none => .bad
-
-def eDir (d : Validate.Dir) : Exec.Dir := { name := d.name, cond := condOf d.args }
-
-mutual
-/-- literal of the validator's AST → literal of C07's coercion model -/
-def litOf : Validate.Value → Coerce.Lit
-  | .var n => .var n
-  | .int t => .int (t.toInt?.getD 0)
-  | .float t => .float t
-  | .str t => .str t
-  | .bool b => .bool b
-  | .null => .null
-  | .enum n => .enum n
-  | .list vs => .list (litsOf vs)
-  | .obj fs => .obj (fieldsOf fs)
-def litsOf : List Validate.Value → List Coerce.Lit
-  | [] => []
-  | v :: vs => litOf v :: litsOf vs
-def fieldsOf : List Validate.ObjField → List (String × Coerce.Lit)
-  | [] => []
-  | .mk n v :: fs => (n, litOf v) :: fieldsOf fs
-end
-
-/-- the argument nodes of a field, as `coerce_argument_values` reads them -/
-def eArgs (args : List Validate.Arg) : List (String × Coerce.Lit) := args.map fun a => (a.name, litOf a.value)
-
-mutual
-/-- a field node carries the MODEL-COMPUTED table "object type defining the field ↦ coerced keyword arguments"
-    (`Exec.argsTable`: C07's `coerceArgumentValues` under the environment `env`; `none` = `CoercionError`, a field error);
-    the sub-selection of a node without selection set is empty (`hasSub = false`: the parser never produces one) -/
-def eSel (s : SchemaD) (env : Exec.ArgEnv) : Validate.Sel → Exec.Sel
-  | .field alias name args dirs hs ssid sub =>
-    .field (alias.getD name) name ssid (dirs.map eDir) (Exec.argsTable s env name (eArgs args)) hs (if hs then eSels s env sub else [])
-  | .spread name dirs => .spread name (dirs.map eDir)
-  | .inline on dirs _ sub => .inline on (dirs.map eDir) (eSels s env sub)
-def eSels (s : SchemaD) (env : Exec.ArgEnv) : List Validate.Sel → List Exec.Sel
-  | [] => []
-  | x :: xs => eSel s env x :: eSels s env xs
-end
-
-def eOp (s : SchemaD) (env : Exec.ArgEnv) : Validate.Def → Option Exec.Op
-  | .op kind name _ _ _ sels => some { kind := kind, name := name, sels := eSels s env sels }
-  | _ => none
-def eFrag (s : SchemaD) (env : Exec.ArgEnv) : Validate.Def → Option Exec.Frag
-  | .frag name on _ _ sels => some { name := name, on := on, sels := eSels s env sels }
-  | _ => none
-
-/-- the executor's document: fields WITH their argument tables -/
-def eDoc (s : SchemaD) (env : Exec.ArgEnv) (d : Validate.Doc) : Exec.Doc :=
-  { ops := d.defs.filterMap (eOp s env), frags := d.defs.filterMap (eFrag s env) }
 
 /-! ### the two schema readings agree where the validator's is defined -/
 
